@@ -31,7 +31,9 @@ type corsReq struct {
 	Origin string `json:"origin"`
 	Acrm   string `json:"acrm"`
 	Acrh   string `json:"acrh"`
-	URL    string `json:"url"`
+	// Acrh2 != "": a second Access-Control-Request-Headers field line
+	Acrh2 string `json:"acrh2"`
+	URL   string `json:"url"`
 }
 
 type corsPlan struct {
@@ -83,6 +85,13 @@ func corsContainer(cfg *corsCfg, cnt *corsCounters) *restful.Container {
 // second: an additional, restrictive CORS filter on the WebServices (cookies, expose X-B, only http://b.org)
 func corsContainerW(cfg *corsCfg, cnt *corsCounters, second *restful.CrossOriginResourceSharing) (*restful.Container, *corsWorld) {
 	c := restful.NewContainer()
+	// a plain handler behind the container's filters, registered while the container has no filter yet (/plain/x
+	// is reached through ServeHTTP only)
+	c.HandleWithFilter("/plain/", http.HandlerFunc(func(w http.ResponseWriter, r *http.Request) {
+		cnt.ran++
+		w.Header().Add("X-Handler", r.Method)
+		w.Write([]byte("ok:" + r.URL.Path))
+	}))
 	if cfg != nil {
 		cors := restful.CrossOriginResourceSharing{
 			ExposeHeaders: cfg.Expose, AllowedHeaders: cfg.Headers, AllowedDomains: cfg.Domains,
@@ -162,7 +171,7 @@ type corsProj struct {
 func corsObserve(c *restful.Container, cnt *corsCounters, rq corsReq) (proj corsProj, ac [][]interface{}, panicked bool) {
 	*cnt = corsCounters{}
 	hr, err := buildRequest(rq.M, rq.URL, [][2]string{{"Origin", rq.Origin}, {"Access-Control-Request-Method", rq.Acrm},
-		{"Access-Control-Request-Headers", rq.Acrh}}, nil, false)
+		{"Access-Control-Request-Headers", rq.Acrh}, {"Access-Control-Request-Headers", rq.Acrh2}}, nil, false)
 	ac = [][]interface{}{}
 	if err != nil {
 		return corsProj{St: -2, Hdr: [][]interface{}{}}, ac, false
@@ -174,7 +183,11 @@ func corsObserve(c *restful.Container, cnt *corsCounters, rq corsReq) (proj cors
 				panicked = true
 			}
 		}()
-		c.Dispatch(rec, hr)
+		if strings.HasPrefix(rq.URL, "/plain/") {
+			c.ServeHTTP(rec, hr)
+		} else {
+			c.Dispatch(rec, hr)
+		}
 	}()
 	proj = corsProj{St: rec.Code, Ran: cnt.ran, Later: cnt.later, Body: rec.Body.String(), Hdr: [][]interface{}{}}
 	keys := []string{}
@@ -244,7 +257,7 @@ func runCorsCfg(tw *traceWriter, cfg corsCfg, reqs []corsReq) {
 			world.shrink()
 			tworld.shrink()
 		}
-		if !validHeaderValue(rq.Origin) || !validHeaderValue(rq.Acrh) || !validHeaderValue(rq.Acrm) {
+		if !validHeaderValue(rq.Origin) || !validHeaderValue(rq.Acrh) || !validHeaderValue(rq.Acrh2) || !validHeaderValue(rq.Acrm) {
 			continue
 		}
 		proj, ac, panicked := corsObserve(c, &cnt, rq)
@@ -454,7 +467,7 @@ func runCors(planPath, outPath string, seed int64) {
 		}
 		reqs := []corsReq{}
 		for j := 0; j < p.ReqsPer; j++ {
-			rq := corsReq{M: pick(r, []string{"GET", "OPTIONS", "OPTIONS", "PUT", "POST"}), URL: pick(r, []string{"/u1", "/u2", "/u3", "/u1", "/u2", "/u1/users/5", "/u1/things/5"})}
+			rq := corsReq{M: pick(r, []string{"GET", "OPTIONS", "OPTIONS", "PUT", "POST"}), URL: pick(r, []string{"/u1", "/u2", "/u3", "/u1", "/u2", "/u1/users/5", "/u1/things/5", "/plain/x"})}
 			base := pick(r, append(append([]string{}, domPool...), "https://x.example.com", "http://example.com"))
 			if len(cfg.Domains) > 0 && r.Intn(2) == 0 {
 				base = pick(r, cfg.Domains)
@@ -496,6 +509,11 @@ func runCors(planPath, outPath string, seed int64) {
 				hs = append(hs, h)
 			}
 			rq.Acrh = strings.Join(hs, pick(r, []string{",", ", ", " , "}))
+			if len(hs) > 0 && r.Intn(5) == 0 {
+				// the list spread over two field lines: an allowed first line, anything in the second
+				rq.Acrh = hs[0]
+				rq.Acrh2 = strings.Join(append(hs[1:], pick(r, hdrPool)), ", ")
+			}
 			reqs = append(reqs, rq)
 		}
 		runCorsCfg(tw, cfg, reqs)
